@@ -266,7 +266,9 @@ func genShExt(t *rapid.T, i int) ExtSpec {
 	}
 }
 
-var sigSchemes = []int{0x0401, 0x0804, 0x0403, 0x0807, 0x0501, 0x0601, 0x0201, 0x0203, 0x0805, 0x0806, 0x0503, 0x0603, 0x0101, 0x0402, 0x0000, 0xffff, 0x0808}
+// (the second group: the expected signature type under a hash id that is unassigned, reserved or not implemented)
+var sigSchemes = []int{0x0401, 0x0804, 0x0403, 0x0807, 0x0501, 0x0601, 0x0201, 0x0203, 0x0805, 0x0806, 0x0503, 0x0603, 0x0101, 0x0402, 0x0000, 0xffff, 0x0808,
+	0x0001, 0x0301, 0x0701, 0x0801, 0xff01, 0x0003, 0x0303, 0x0703, 0xff03, 0x0002, 0x0702}
 
 func isDHE(suite int) bool {
 	switch suite {
